@@ -117,3 +117,64 @@ fn c07_never() {
     kani::cover!(writes_direct, "direct naming");
     std::mem::forget(spec);
 }
+
+
+// ------------------------------------------------------------------------------------------------
+// C11: a cleanup killed after j of its removals. The directory then lacks the j files the killed
+// run removed first (list positions keep .. keep+j-1, i.e. NOT the oldest ones: removal goes from
+// newer to older); the cleanup of the restarted logger must still end with exactly the newest
+// `keep` files. The listing stub serves the survivors in list order.
+fn stub_listing_after_kill(_fs: &FileSpec, _f: &InfixFilter) -> Vec<PathBuf> {
+    // cell 0 = n (files before the killed cleanup), cell 3 = keep, cell 4 = j (removals that happened)
+    let n = vs::cell_get(0) as usize;
+    let keep = vs::cell_get(3) as usize;
+    let j = vs::cell_get(4) as usize;
+    let mut v = Vec::with_capacity(5);
+    let mut i = 0;
+    while i < 5 {
+        if i < n && !(i >= keep && i < keep + j) {
+            v.push(PathBuf::from(NAMES[i]));
+        }
+        i += 1;
+    }
+    v
+}
+fn cleanup_resumes_case(j: u64) {
+    vs::link_all();
+    vs::cell_set(0, 5);
+    vs::cell_set(3, 2);
+    vs::cell_set(4, j);
+    vs::cell_set(2, 0);
+    let writes_direct: bool = kani::any();
+    let spec = FileSpec::default().directory("d").basename("b").suffix("l").suppress_timestamp();
+    let r = remove_or_compress_too_old_logfiles_impl(&Cleanup::KeepLogFiles(2), &spec, &infix_filter_numbers(), writes_direct);
+    assert!(r.is_ok());
+    // positions 2,3,4 were beyond the limit; j of them (2.., newest first) are already gone
+    assert!(vs::ev_len() == 3 - j as usize);
+    let mut i = 0;
+    while i < vs::ev_len() {
+        assert!(vs::ev_get(i) as u64 == 2 + j + i as u64);
+        i += 1;
+    }
+    kani::cover!(writes_direct, "direct naming");
+    std::mem::forget(spec);
+    std::mem::forget(r);
+}
+macro_rules! resume_instance {
+    ($name:ident, $j:expr) => {
+        #[kani::proof]
+        #[kani::unwind(14)]
+        #[kani::stub(verif_support::reexp::catch_unwind, verif_support::stub_cu)]
+        #[kani::stub(list_of_log_and_compressed_files, stub_listing_after_kill)]
+        #[kani::stub(std::fs::remove_file, stub_remove_file)]
+        fn $name() {
+            cleanup_resumes_case($j);
+        }
+    };
+}
+// @verif prop=C11,C07 tier=quick timeout=600 bounds=5-rotated-files,KeepLogFiles(2),cleanup-killed-after-1-removal
+// Cleanup killed after its first removal, then run again by the restarted logger: it removes exactly the files that are still beyond the limit and ends with the newest 2 files - a half-done cleanup converges.
+resume_instance!(c11_cleanup_resumes_after_1, 1);
+// @verif prop=C11,C07 tier=quick timeout=600 bounds=5-rotated-files,KeepLogFiles(2),cleanup-killed-after-2-removals
+// ... killed after two removals.
+resume_instance!(c11_cleanup_resumes_after_2, 2);
